@@ -98,7 +98,7 @@ pub fn snapshot_count() -> u64 {
 pub fn gen_c08(seed: u64, _tier: &str) -> Value {
     let mut r = Rng::derive(seed, "host");
     let procs = gen_procs(&mut r, 2, true);
-    let scenario = *r.pick(&["fresh", "fresh", "restart_with_key", "rotation", "unreadable"]);
+    let scenario = *r.pick(&["fresh", "fresh", "restart_with_key", "restart_with_key", "rotation", "unreadable"]);
     let mut steps: Vec<Value> = Vec::new();
     steps.push(json!({"t": "c08_prepare", "scenario": scenario, "corruption": *r.pick(&["truncate", "bitflip", "wrong_guid", "eacces", "empty"])}));
     // host failures at each protocol step
@@ -120,9 +120,15 @@ pub fn gen_c08(seed: u64, _tier: &str) -> Value {
     let mut knobs = gen_knobs(&mut r, false);
     knobs["net.frag_ppm"] = json!(*r.pick(&[0u64, 300_000, 900_000]));
     let mut disk_faults = Vec::new();
-    if r.chance(1, 4) {
+    if matches!(scenario, "restart_with_key" | "rotation") && r.chance(1, 2) {
+        // a transient error while the intact local key file is looked up after the restart (I/O error, no descriptors left)
+        disk_faults.push(json!({"op": "open", "path": ".key", "nth": 1, "errno": *r.pick(&[5i64, 24, 23, 12]), "short": 0}));
+    } else if r.chance(1, 4) {
         // a disk error while storing the key
         disk_faults.push(json!({"op": *r.pick(&["write", "rename", "open"]), "path": "/var/lib/azure-proxy-agent/keys/", "nth": 1 + r.below(6), "errno": *r.pick(&[28i64, 5, 13]), "short": 0}));
+    } else if false {
+        // a transient error while the intact local key file is looked up after the restart (I/O error, no descriptors left)
+        disk_faults.push(json!({"op": "open", "path": ".key", "nth": 1 + r.below(2), "errno": *r.pick(&[5i64, 24, 23, 12]), "short": 0}));
     }
     json!({
         "scenario": "crash:C08", "seed": seed, "family": "crash", "prop": "C08", "c08_scenario": scenario,
